@@ -135,7 +135,14 @@ func init() {
 		},
 		Run: func(c *Ctx) {
 			g := c.L("gen")
-			pl := drawPayload(c, g, 2000, gen.LayoutOpts{Foreign: 14, IFD1: true})
+			lo := gen.LayoutOpts{Foreign: 14, IFD1: true}
+			if x := c.L("gen:x"); x.Chance(1, 4) {
+				// many further unknown tags spread over the directories: still within the documented
+				// limits (checked below), but the pending-tag buffer is kept well filled
+				lo.Bulk, lo.BulkSpread = 8+x.Intn(72), true
+				c.Inc("probe:bulk-unknown-tags")
+			}
+			pl := drawPayload(c, g, 2000, lo)
 			if !pl.ok {
 				return
 			}
@@ -230,13 +237,16 @@ func encodeParts(lys []*gen.Layout, big bool) [][]byte {
 	return out
 }
 
-func drawEmbedCase(c *Ctx, g *core.Lane, kind int, rec *gen.Record, opts gen.LayoutOpts, surround bool) *embedCase {
+func drawEmbedCase(c *Ctx, g *core.Lane, kind int, rec *gen.Record, opts gen.LayoutOpts, surround bool, alt gen.Alt) *embedCase {
 	ec := &embedCase{rec: rec, kind: kind, okLimit: true}
 	if kind == gen.CCR3 {
 		l1, l2, l4 := gen.BuildSplit(g, rec, opts)
 		ec.lys = []*gen.Layout{l1, l2, l4}
 	} else {
 		ec.lys = []*gen.Layout{gen.BuildTIFF(g, rec, opts)}
+	}
+	for _, ly := range ec.lys {
+		ly.ApplyAlt(alt)
 	}
 	for _, ly := range ec.lys {
 		if ly == nil {
@@ -301,8 +311,12 @@ func init() {
 			rec := gen.DrawRecord(g, 1500)
 			big := g.Bool()
 			kind := cfg.Intn(5)
-			ref := drawEmbedCase(c, g, gen.CTIFF, rec, opts, false)
-			cand := drawEmbedCase(c, g, kind, rec, opts, true)
+			alt := gen.DrawAlt(c.L("gen:x"))
+			if alt != (gen.Alt{}) {
+				c.Inc("probe:alternative-encodings (LONG for SHORT, ISO x2, slot padding)")
+			}
+			ref := drawEmbedCase(c, g, gen.CTIFF, rec, opts, false, alt)
+			cand := drawEmbedCase(c, g, kind, rec, opts, true, alt)
 			if !ref.okLimit || !cand.okLimit {
 				return
 			}
@@ -397,7 +411,12 @@ func init() {
 			kind := cfg.Intn(5)
 			o := opts
 			o.Foreign = 12
-			ec := drawEmbedCase(c, g, kind, rec, o, g.Bool())
+			alt := gen.DrawAlt(c.L("gen:x"))
+			if alt != (gen.Alt{}) {
+				c.Inc("probe:alternative-encodings (LONG for SHORT, ISO x2, slot padding)")
+			}
+			c.Descf("alt encodings: %+v", alt)
+			ec := drawEmbedCase(c, g, kind, rec, o, g.Bool(), alt)
 			if !ec.okLimit {
 				return
 			}
